@@ -1,6 +1,10 @@
 import Inkayaku.Model.ChessOps
 import Inkayaku.Model.Table
 import Inkayaku.Model.History
+import Inkayaku.Model.Generate
+import Inkayaku.Model.SpecOps
+import Inkayaku.Model.Pgn
+import Inkayaku.Model.Uci
 /-!
 `modeldriver`: the model side of the line protocol.  `modeldriver run` reads one request per line from stdin and
 writes one canonical answer per line.  Imports Model/Spec/Gen only (no Mathlib), so it links as a native executable.
@@ -24,6 +28,7 @@ def dispatch (op : String) (args : List String) : String :=
   | "fen" => ChessOps.handleFen args
   | "fenvalid" => ChessOps.handleFenValid args
   | "finduci" => ChessOps.handleFindUci args
+  | "finduci-all" => ChessOps.handleFindUciAll args
   | "makeuci" => ChessOps.handleMakeUci args
   | "makeall" => ChessOps.handleMakeAll args
   | "ucipgn" => ChessOps.handleUciPgn args
@@ -32,6 +37,24 @@ def dispatch (op : String) (args : List String) : String :=
   | "eval" => ChessOps.handleEval args
   | "scorefromvalue" => ChessOps.handleScoreFromValue args
   | "magic" => ChessOps.handleMagic args
+  | "succ" => ChessOps.handleSucc args
+  | "wf" => (match args with | [f] => ChessOps.withBoard f (fun b => if Generate.wf b then "1" else "0") | _ => "bad-request")
+  | "spec:legal" => SpecOps.handleLegal args
+  | "spec:succ" => SpecOps.handleSucc args
+  | "spec:incheck" => SpecOps.handleInCheck args
+  | "spec:terminal" => SpecOps.handleTerminal args
+  | "spec:san" => SpecOps.handleSan args
+  | "spec:nq" => SpecOps.handleNq args
+  | "spec:finduci" => SpecOps.handleFindUci args
+  | "spec:makeuci" => SpecOps.handleMakeUci args
+  | "spec:ucipgn" => SpecOps.handleUciPgn args
+  | "spec:makeall" => SpecOps.handleMakeAll args
+  | "spec:finduci-all" => SpecOps.handleFindUciAll args
+  | "spec:sanmv" => SpecOps.handleSanMv args
+  | "spec:gamesan" => SpecOps.handleGameSan args
+  | "pgn" => Pgn.handlePgn args
+  | "uciparse" => Uci.handleUciParse args
+  | "ucimove" => Uci.handleUciMove args
   | "table" => Table.handleTable args
   | "reps" => History.handleReps args
   | _ => "bad-request"
@@ -52,6 +75,12 @@ def main (args : List String) : IO UInt32 := do
   | ["run"] =>
     loop (← IO.getStdin) (← IO.getStdout)
     return 0
+  | ["gen", "positions", seed, n] =>
+    for l in Generate.genPositions seed.toNat! n.toNat! do IO.println l
+    return 0
+  | ["gen", "games", seed, n, maxLen] =>
+    for l in Generate.genGames seed.toNat! n.toNat! maxLen.toNat! do IO.println l
+    return 0
   | _ =>
-    IO.eprintln "usage: modeldriver run < requests"
+    IO.eprintln "usage: modeldriver run < requests | gen positions <seed> <n> | gen games <seed> <n> <maxlen>"
     return 2
